@@ -8,9 +8,13 @@ import (
 	"time"
 
 	"github.com/open-policy-agent/opa/v1/ast"
+	"github.com/open-policy-agent/opa/v1/rego"
 
+	rbundle "github.com/styrainc/regal/bundle"
+	"github.com/styrainc/regal/pkg/builtins"
 	"github.com/styrainc/regal/pkg/linter"
 	"github.com/styrainc/regal/pkg/rules"
+	"github.com/styrainc/roast/pkg/transform"
 
 	"verifharness/hutil"
 )
@@ -73,6 +77,19 @@ func lintSubset(mods []Parsed) (bool, string, int) {
 	return true, "", rep.Summary.FilesScanned
 }
 
+// directOutcome decides, WITHOUT going through pkg/linter, whether the per-file step of this file fails:
+// roast's transform, and the evaluation of the custom rule on the transformed input by OPA itself.
+func directOutcome(p Parsed, pq rego.PreparedEvalQuery) bool {
+	v, err := transform.ToAST(p.Name, p.Text, p.AST, false)
+	if err != nil {
+		return false
+	}
+	if _, err := pq.Eval(context.Background(), rego.EvalParsedInput(v)); err != nil {
+		return false
+	}
+	return true
+}
+
 func RunPropagation(out, tier string) {
 	r := hutil.NewRng(hutil.SeedFromEnv() ^ 0xE44)
 	o := hutil.NewOut(out)
@@ -85,11 +102,22 @@ func RunPropagation(out, tier string) {
 		}
 		pool = append(pool, p)
 	}
+	args := []func(*rego.Rego){
+		rego.ParsedBundle("regal", &rbundle.LoadedBundle),
+		rego.Module("boom.rego", boomRule),
+		rego.Query("x = data.custom.regal.rules.testing.boom.report"),
+	}
+	args = append(args, builtins.RegalBuiltinRegoFuncs...)
+	pq, err := rego.New(args...).PrepareForEval(context.Background())
+	if err != nil {
+		panic(err)
+	}
+	// the oracle table comes from the direct evaluation; Lint on the single file must agree with it too
 	single := make([]bool, len(pool))
 	for i, p := range pool {
-		ok, e, _ := lintSubset([]Parsed{p})
-		single[i] = ok
-		o.Emit(PropCase{Helper: "propagation", Files: []string{p.Name}, Singles: []bool{ok}, GotOK: ok, Err: e, NFiles: 1})
+		single[i] = directOutcome(p, pq)
+		ok, e, nf := lintSubset([]Parsed{p})
+		o.Emit(PropCase{Helper: "propagation", Files: []string{p.Name}, Singles: []bool{single[i]}, GotOK: ok, Err: e, NFiles: nf})
 	}
 	n := 14
 	if tier != "quick" {
